@@ -129,11 +129,38 @@ theorem WInv_addConn {w : World} (h : WInv w) (rh : Option Bytes) (ow : Option N
     exact WInv_applyCtx h rfl (fun _ _ => rfl) rfl (Nat.le_succ _) (Nat.lt_succ_self _)
       (fun j hj => h.bound j (by simp at hj; omega)) h1 (by rw [h3]; exact hrh) h2
 
+/-- an inbound connection dropped by the `assert self._transit_key` (no key yet) -/
+theorem WInv_addOrphan {w : World} (h : WInv w) : WInv (addOrphan w).1 := by
+  unfold addOrphan
+  have hw : w.winner ≠ some w.n := by
+    intro hh; have := h.winner _ hh; omega
+  refine ⟨?_, ?_, ?_, ?_⟩
+  · intro j c hc
+    simp only [World.setConn] at hc
+    by_cases hj : j = w.n
+    · subst hj; simp at hc; subst hc
+      exact CInv_Y (by simp [hsOut, newConn]) hw (by simp [newConn]) (by simp) (by simp)
+    · simp [hj] at hc; exact h.conns j c hc
+  · intro j c hc
+    simp only [World.setConn] at hc
+    by_cases hj : j = w.n
+    · subst hj; simp at hc; subst hc; left; simp [newConn]
+    · simp [hj] at hc; exact h.rel j c hc
+  · intro j hj
+    simp only [World.setConn] at hj ⊢
+    have : j ≠ w.n := by omega
+    simp [this]; exact h.bound j (by omega)
+  · intro j hj
+    simp only [World.setConn] at hj ⊢
+    have := h.winner j hj; omega
+
 theorem WInv_evInbound {w : World} (h : WInv w) {p : World × Option Err} (hp : evInbound w = some p) :
     WInv p.1 := by
   unfold evInbound at hp
   split at hp
-  · cases hp; exact WInv_addConn h none none (Or.inl rfl)
+  · split at hp
+    · cases hp; exact WInv_addConn h none none (Or.inl rfl)
+    · cases hp; exact WInv_addOrphan h
   · cases hp
 
 theorem WInv_evConnected {w : World} (h : WInv w) {k : Nat} {p : World × Option Err}
@@ -156,9 +183,11 @@ theorem WInv_step {w : World} (h : WInv w) (e : Event) : WInv (step w e) := by
     | some p => exact WInv_evInbound h hE
   | connect =>
     simp only [step]
-    cases hE : evConnect w with
-    | none => exact h
-    | some w' => exact WInv_quiet h (evConnect_quiet hE)
+    split
+    · cases hE : evConnect w with
+      | none => exact h
+      | some w' => exact WInv_quiet h (evConnect_quiet hE)
+    · exact h
   | connected k =>
     simp only [step]
     cases hE : evConnected w k with
@@ -172,6 +201,7 @@ theorem WInv_step {w : World} (h : WInv w) (e : Event) : WInv (step w e) := by
   | data i d => exact WInv_evData h i d
   | lost i => exact WInv_quiet h (evLost_quiet w i)
   | advance dt => exact WInv_quiet h (evAdvance_quiet w dt)
+  | setKey => exact WInv_quiet h (Quiet.of_eq rfl rfl rfl rfl)
 
 theorem WInv_init (cfg : Cfg) (l : Bool) (d : Nat) (r : List Nat) : WInv (initWorld cfg l d r) :=
   ⟨by intro i c h; simp [initWorld] at h, by intro i c h; simp [initWorld] at h,
@@ -200,7 +230,9 @@ theorem addConn_cfg (w : World) (rh : Option Bytes) (ow : Option Nat) : (addConn
 theorem evInbound_cfg {w : World} {p : World × Option Err} (hE : evInbound w = some p) : p.1.cfg = w.cfg := by
   unfold evInbound at hE
   split at hE
-  · cases hE; exact addConn_cfg _ _ _
+  · split at hE
+    · cases hE; exact addConn_cfg _ _ _
+    · cases hE; rfl
   · cases hE
 
 theorem evConnected_cfg {w : World} {k : Nat} {p : World × Option Err} (hE : evConnected w k = some p) :
@@ -221,9 +253,11 @@ theorem step_cfg (w : World) (e : Event) : (step w e).cfg = w.cfg := by
     | some p => exact evInbound_cfg hE
   | connect =>
     simp only [step]
-    cases hE : evConnect w with
-    | none => rfl
-    | some w' => exact (evConnect_quiet hE).cfg
+    split
+    · cases hE : evConnect w with
+      | none => rfl
+      | some w' => exact (evConnect_quiet hE).cfg
+    · rfl
   | connected k =>
     simp only [step]
     cases hE : evConnected w k with
@@ -241,6 +275,7 @@ theorem step_cfg (w : World) (e : Event) : (step w e).cfg = w.cfg := by
     · exact applyCtx_cfg _ _ _
   | lost i => exact (evLost_quiet w i).cfg
   | advance dt => exact (evAdvance_quiet w dt).cfg
+  | setKey => rfl
 
 theorem run_cfg (w : World) (evs : List Event) : (run w evs).cfg = w.cfg := by
   induction evs generalizing w with
